@@ -472,6 +472,11 @@ impl Node {
         node_ids: &mut HashSet<NodeIdentifier>,
         conn: &Connection,
     ) -> Result<Vec<NodeToInsert>> {
+        //a version that is not newer than a stored deletion record must not be requested again
+        Self::remove_deleted_versions(node_ids, conn)?;
+        if node_ids.is_empty() {
+            return Ok(Vec::new());
+        }
         let it = &mut node_ids.iter().peekable();
         let mut q = String::new();
         let mut ids = Vec::new();
@@ -573,6 +578,46 @@ impl Node {
         }
 
         Ok(result)
+    }
+
+    //
+    // Removes from the set the node versions that are covered by a deletion record stored locally
+    //
+    fn remove_deleted_versions(
+        node_ids: &mut HashSet<NodeIdentifier>,
+        conn: &Connection,
+    ) -> Result<()> {
+        if node_ids.is_empty() {
+            return Ok(());
+        }
+        let mut q = String::new();
+        let mut ids = Vec::with_capacity(node_ids.len());
+        for node in node_ids.iter() {
+            if !q.is_empty() {
+                q.push(',');
+            }
+            q.push('?');
+            ids.push(node.id);
+        }
+        let query = format!(
+            "SELECT id, max(mdate) FROM _node_deletion_log WHERE id in ({}) GROUP BY id",
+            q
+        );
+        let mut deleted: HashMap<Uid, i64> = HashMap::new();
+        {
+            let mut stmt = conn.prepare(&query)?;
+            let mut rows = stmt.query(params_from_iter(ids.iter()))?;
+            while let Some(row) = rows.next()? {
+                deleted.insert(row.get(0)?, row.get(1)?);
+            }
+        }
+        if !deleted.is_empty() {
+            node_ids.retain(|node| match deleted.get(&node.id) {
+                Some(deleted_version) => node.mdate > *deleted_version,
+                None => true,
+            });
+        }
+        Ok(())
     }
 
     pub fn filtered_by_room(
